@@ -49,4 +49,18 @@ impl Item {
     requires from <= old(v)@.len(),
     ensures r@ == old(v)@.subrange(from as int, old(v)@.len() as int), final(v)@ == old(v)@.subrange(0, from as int) { unimplemented!() }
 
+// ---- BindgenContext::process_replacements: which (item, replacement) pairs are recorded
+impl BindgenContext {
+    // the id names an item of the table / that item is a type
+    pub uninterp spec fn s_exists(&self, id: ItemId) -> bool;
+    pub uninterp spec fn s_is_type(&self, id: ItemId) -> bool;
+    #[verifier::external_body] pub fn resolve_item_fallible(&self, id: ItemId) -> (r: Option<&Item>) ensures r.is_some() == self.s_exists(id) { unimplemented!() }
+}
+impl ItemId {
+    // ItemId::expect_type_id: resolve_item panics on an id without item ("Not an item"), the debug_assert on one that is no type
+    #[verifier::external_body] pub fn expect_type_id(&self, ctx: &BindgenContext) -> (r: TypeId)
+        requires ctx.s_exists(*self), ctx.s_is_type(*self),
+        ensures r.0 == *self { unimplemented!() }
+}
+
 } // verus!
